@@ -128,7 +128,7 @@ def gen_spec(rng, kind="daily", shape=None, tz=None, noise=None):
 # deliberately damaged copies of the package: regularisation x1000, balance-point search skipped, smoothing forced on,
 # narrowed intercept bounds); the unchanged code recovers all of them with NRMSE < 2.5 %
 SENTINELS = [
-    # (shape, parameters, at most this many days in the scarcest active regime (None = any))
+    # (shape, parameters, window for the mean squared load  mean((g(T) - base)^2)  of the baseline year, or None)
     ("both", dict(base=5.0, bh=1.0, bph=52.0, bc=0.3, bpc=69.0), None),     # small base load, weak cooling
     ("cool", dict(base=5.0, bh=0.0, bph=52.0, bc=3.0, bpc=69.0), None),     # small base load, steep cooling
     ("cool", dict(base=5.0, bh=0.0, bph=58.0, bc=1.0, bpc=64.0), None),
@@ -136,25 +136,30 @@ SENTINELS = [
     ("cool", dict(base=20.0, bh=0.0, bph=58.0, bc=3.0, bpc=64.0), None),
     ("both", dict(base=20.0, bh=1.0, bph=58.0, bc=1.0, bpc=64.0), None),    # narrow temperature-independent band
     ("both", dict(base=50.0, bh=3.0, bph=58.0, bc=3.0, bpc=64.0), None),
-    # a weak slope seen on barely more than a month of days (what over-regularisation erases first)
-    ("cool", dict(base=5.0, bh=0.0, bph=50.0, bc=0.3, bpc=75.0), 45),
-    ("cool", dict(base=5.0, bh=0.0, bph=50.0, bc=0.3, bpc=75.0), 45),
-    ("heat", dict(base=5.0, bh=0.5, bph=48.0, bc=0.0, bpc=70.0), 45),
+    # a weak load on barely more than a month of days: losing it costs 6-8 % NRMSE, and it is what an
+    # over-regularised initial fit erases first
+    ("cool", dict(base=5.0, bh=0.0, bph=50.0, bc=0.3, bpc=75.0), (0.09, 0.16)),
+    ("cool", dict(base=5.0, bh=0.0, bph=50.0, bc=0.3, bpc=75.0), (0.09, 0.16)),
+    ("cool", dict(base=5.0, bh=0.0, bph=50.0, bc=0.3, bpc=75.0), (0.09, 0.16)),
+    ("heat", dict(base=5.0, bh=0.3, bph=45.0, bc=0.0, bpc=70.0), (0.09, 0.16)),
 ]
 
 
 def sentinel_specs(rng, kind="daily"):
     out = []
-    for sh, params, few_max in SENTINELS:
-        for _try in range(400):
+    for sh, params, window in SENTINELS:
+        for _try in range(3000):
             s = gen_spec(rng, kind, shape=sh)
             s.update(params)
             T = baseline_temps(s)
-            rd = regime_days(s, T)
-            few = min(v for v in (rd["cold"], rd["hot"]) if v is not None)
-            if in_family(s, T) and (few_max is None or few <= few_max):
-                out.append(s)
-                break
+            if not in_family(s, T):
+                continue
+            if window is not None:
+                sig = float(np.mean((g_curve(s, T) - s["base"]) ** 2))
+                if not (window[0] <= sig <= window[1]):
+                    continue
+            out.append(s)
+            break
         else:
             raise RuntimeError("no weather year of the family for sentinel %r" % (params,))
     return out
